@@ -288,6 +288,24 @@ func c01One(r *core.Run, idx int64, note string, mk func() (val.LibCol, error), 
 			return
 		}
 	}
+	// ... and a zero-row block of the same schema after it leaves every target empty
+	if rows > 0 {
+		var w0 ref.W
+		if err := ref.EncodeBlock(&w0, rev, &ref.Block{Info: ref.BlockInfo{Bucket: -1}, Rows: 0, Cols: []ref.Col{{Name: "v", Type: rb.Cols[0].Type}, {Name: "i", Type: "UInt32"}}}); err == nil {
+			if msg := core.Recover(func() { blk, derr, exact = libDecode(w0.B, rev, res) }); msg != "" {
+				r.Violation("decode-panic:zero-row-block-after-rows:"+site, msg, cs)
+				return
+			}
+			if derr != nil || !exact {
+				r.Violation("decode-error:zero-row-block-after-rows:"+site, fmt.Sprintf("a zero-row block into targets that hold rows: err=%v, consumed exactly=%v", derr, exact), cs)
+				return
+			}
+			if n, m := dst.Col().Rows(), dIdx.Rows(); n != 0 || m != 0 || blk.Rows != 0 {
+				r.Violation("decode-rows:zero-row-block-after-rows:"+site, fmt.Sprintf("after a zero-row block the targets hold %d and %d rows (block reports %d)", n, m, blk.Rows), cs)
+				return
+			}
+		}
+	}
 	// automatic inference
 	var auto proto.ColAuto
 	if core.Recover(func() { err = auto.Infer(proto.ColumnType(rb.Cols[0].Type)) }) == "" && err == nil {
